@@ -67,7 +67,10 @@ where
             index,
             name: Arc::new(name),
             file,
+            #[cfg(not(pearl_verif))]
             created_at: SystemTime::now(),
+            #[cfg(pearl_verif)]
+            created_at: crate::verif::system_now(),
             validate_data_during_index_regen,
         };
         blob.write_header().await?;
